@@ -7,7 +7,7 @@
    commit stores data and bookkeeping rows atomically; WAL recovery) is SQLite's
    and is checked on crash copies of the real files by the harness. *)
 From Coq Require Import List ZArith Bool Lia.
-From Corro Require Import Lib.Ivl Model.Book Model.BookOps Proofs.BookProofs Proofs.CrashProofs Gen.Consts.
+From Corro Require Import Lib.Ivl Model.Book Model.BookOps Proofs.BookProofs Proofs.CrashProofs Proofs.DurProofs Gen.Consts.
 Import ListNotations.
 Open Scope Z_scope.
 
@@ -42,6 +42,36 @@ Proof.
   intros p Hp. rewrite Hp in H. destruct (fully_buffered p); [reflexivity|discriminate].
 Qed.
 Print Assumptions C06_held_after_restart.
+
+(* DurInv is not an assumption about reachable states: for EVERY history of bookkeeping
+   operations (insert_db of complete/cleared ranges, incomplete chunks; Model/BookOps.v, the
+   model the C02 runs compare with the real BookedVersions and its tables) and a crash after
+   ANY of its commits, the durable rows satisfy it -- so the restart rebuilds the invariant and
+   advertises the exact partition, with the durable gap rows as its needs *)
+Theorem C06_durable_rows_always_ok : forall ops,
+  Forall op_ok ops ->
+  let st := brun ops in DurInv (st_dbmax st) (seqrows_flat (st_seq st)) (st_rows st).
+Proof. intros ops Hok st. apply dur_durinv, dur_reachable, Hok. Qed.
+Print Assumptions C06_durable_rows_always_ok.
+
+Theorem C06_crash_after_any_step : forall ops v,
+  Forall op_ok ops -> 1 <= v ->
+  let st := brun ops in
+  Inv (reload st) (st_rows st) /\
+  adv_class (sync_actor (reload st)) v = classify (reload st) v.
+Proof.
+  intros ops v Hok Hv st. split; [apply crash_anywhere_restart_inv, Hok|].
+  apply (C06_restart_advertises_exact_partition _ _ _ v); [apply dur_durinv, dur_reachable, Hok|exact Hv].
+Qed.
+Print Assumptions C06_crash_after_any_step.
+
+Example C06_history_nonvacuous :
+  let ops := [OpInsert [(1, 2)]; OpPartial 5 0 1 3; OpInsert [(7, 7)]; OpPartial 5 3 3 3; OpInsert [(4, 4)]] in
+  Forall op_ok ops /\
+  let st := brun ops in
+  (st_rows st, st_dbmax st, map fst (st_seq st)) = ([(3, 3); (6, 6)], Some 7, [5]) /\
+  needed (reload st) = [(3, 3); (6, 6)] /\ maxv (reload st) = Some 7.
+Proof. split; [repeat constructor; cbn; lia|vm_compute; repeat split; reflexivity]. Qed.
 
 Example C06_nonvacuous :
   let b := from_conn (Some 1) [mkSeqRow 3 0 1 3] [(2, 2)] in
